@@ -234,6 +234,212 @@ fn check_type<T: ProgTy>(tname: &str, ctx: &Ctx, shard: usize, nshards: usize, t
     acc
 }
 
+
+/// Direct monitor of the optional-matrix container (`Derivative`): every public operator and
+/// every representation (absent / explicit zeros / values) of both operands; the unwrapped result
+/// must equal the element-wise (or matrix-product) result on explicit matrices.  All values are
+/// dyadic with few bits, so every operation is exact and equality is exact (`-0.0 == 0.0`).
+mod container {
+    use super::*;
+    use nalgebra::allocator::Allocator;
+    use nalgebra::{DefaultAllocator, Dim, OMatrix};
+    use num_dual::{Derivative, DualNum};
+
+    pub trait El: DualNum<f64> + Copy + std::fmt::Debug + 'static {
+        const NAME: &'static str;
+        fn mk(a: f64, b: f64) -> Self;
+        fn parts(&self) -> [f64; 2];
+    }
+    impl El for f64 {
+        const NAME: &'static str = "f64";
+        fn mk(a: f64, _b: f64) -> Self {
+            a
+        }
+        fn parts(&self) -> [f64; 2] {
+            [*self, 0.0]
+        }
+    }
+    impl El for Dual64 {
+        const NAME: &'static str = "Dual64";
+        fn mk(a: f64, b: f64) -> Self {
+            Dual64::new(a, b)
+        }
+        fn parts(&self) -> [f64; 2] {
+            [self.re, self.eps]
+        }
+    }
+
+    fn dy(rng: &mut Rng) -> f64 {
+        rng.int(-16, 16) as f64 / 4.0
+    }
+
+    /// representation 0: absent, 1: explicit zeros, 2: values
+    fn operand<T: El, R: Dim, C: Dim>(rng: &mut Rng, r: R, c: C, rep: usize) -> (Derivative<T, f64, R, C>, OMatrix<T, R, C>)
+    where
+        DefaultAllocator: Allocator<R, C>,
+    {
+        let mut m = OMatrix::<T, R, C>::zeros_generic(r, c);
+        if rep == 2 {
+            for e in m.iter_mut() {
+                *e = T::mk(dy(rng), dy(rng));
+            }
+        }
+        let d = if rep == 0 { Derivative::none() } else { Derivative::some(m.clone()) };
+        (d, m)
+    }
+
+    fn same<T: El, R: Dim, C: Dim>(got: &OMatrix<T, R, C>, want: &OMatrix<T, R, C>) -> bool
+    where
+        DefaultAllocator: Allocator<R, C>,
+    {
+        got.shape() == want.shape() && got.iter().zip(want.iter()).all(|(g, w)| g.parts() == w.parts())
+    }
+
+    fn show<T: El, R: Dim, C: Dim>(m: &OMatrix<T, R, C>) -> String
+    where
+        DefaultAllocator: Allocator<R, C>,
+    {
+        format!("{:?}", m.iter().map(|e| e.parts()).collect::<Vec<_>>())
+    }
+
+    pub fn run<T: El, R: Dim, C: Dim>(sname: &str, r: R, c: C, ctx: &Ctx, shard: usize, nshards: usize, sidx: u64) -> Acc
+    where
+        DefaultAllocator: Allocator<R, C> + Allocator<C, R> + Allocator<R, R> + Allocator<C, C>,
+    {
+        let mut acc = Acc::new();
+        let rounds = ctx.n(40, 20000);
+        let tag = format!("{}x{}[{}]", sname, T::NAME, if r.value() * c.value() == 0 { "empty" } else { "nonempty" });
+        for round in 0..rounds {
+            if round % nshards as u64 != shard as u64 {
+                continue;
+            }
+            let mut rng = Rng::stream(ctx.seed, 7700 + sidx, round);
+            for ra in 0..3usize {
+                for rb in 0..3usize {
+                    let (a, ma) = operand::<T, R, C>(&mut rng, r, c, ra);
+                    let (b, mb) = operand::<T, R, C>(&mut rng, r, c, rb);
+                    let s = T::mk(*rng.choose(&[0.5, -0.5, 2.0, -2.0, 4.0, 0.25, 1.0, -1.0]), dy(&mut rng));
+                    let reps = format!("{}{}", ["absent", "zeros", "values"][ra], ["-absent", "-zeros", "-values"][rb]);
+                    let check = |acc: &mut Acc, op: &str, got: Result<OMatrix<T, R, C>, String>, want: OMatrix<T, R, C>| {
+                        acc.observe(&format!("container|{}|{}|{}", tag, op, reps), ra == 0 || rb == 0);
+                        match got {
+                            Ok(g) if same(&g, &want) => {}
+                            Ok(g) => acc.violate(
+                                format!("container:{}:{}:{}", op, sname, reps),
+                                format!("Derivative {} on {} ({}) unwraps to {}, explicit matrices give {}", op, tag, reps, show(&g), show(&want)),
+                                json!({"shape": tag, "op": op, "reps": reps, "a": show(&ma), "b": show(&mb), "s": format!("{:?}", s.parts())}),
+                            ),
+                            Err(e) => acc.violate(format!("container:{}:{}:panic", op, sname), format!("Derivative {} on {} ({}) panicked: {}", op, tag, reps, e), json!({"shape": tag, "op": op, "reps": reps})),
+                        }
+                    };
+                    let un = |d: Derivative<T, f64, R, C>| d.unwrap_generic(r, c);
+                    // additive family, all syntactic forms
+                    let want_add = ma.zip_map(&mb, |x, y| x + y);
+                    let want_sub = ma.zip_map(&mb, |x, y| x - y);
+                    check(&mut acc, "add(val,val)", guarded(|| un(a.clone() + b.clone())), want_add.clone());
+                    check(&mut acc, "add(val,ref)", guarded(|| un(a.clone() + &b)), want_add.clone());
+                    check(&mut acc, "add(ref,ref)", guarded(|| un(&a + &b)), want_add.clone());
+                    check(&mut acc, "sub(val,val)", guarded(|| un(a.clone() - b.clone())), want_sub.clone());
+                    check(&mut acc, "sub(val,ref)", guarded(|| un(a.clone() - &b)), want_sub.clone());
+                    check(&mut acc, "sub(ref,ref)", guarded(|| un(&a - &b)), want_sub.clone());
+                    check(&mut acc, "add_assign", guarded(|| { let mut t = a.clone(); t += b.clone(); un(t) }), want_add);
+                    check(&mut acc, "sub_assign", guarded(|| { let mut t = a.clone(); t -= b.clone(); un(t) }), want_sub);
+                    if rb == 0 {
+                        // unary / scalar family (once per representation of a)
+                        check(&mut acc, "neg(val)", guarded(|| un(-a.clone())), ma.map(|x| -x));
+                        check(&mut acc, "neg(ref)", guarded(|| un(-&a)), ma.map(|x| -x));
+                        check(&mut acc, "mul_scalar(val)", guarded(|| un(a.clone() * s)), ma.map(|x| x * s));
+                        check(&mut acc, "mul_scalar(ref)", guarded(|| un(&a * s)), ma.map(|x| x * s));
+                        check(&mut acc, "div_scalar(val)", guarded(|| un(a.clone() / s)), ma.map(|x| x / s));
+                        check(&mut acc, "div_scalar(ref)", guarded(|| un(&a / s)), ma.map(|x| x / s));
+                        check(&mut acc, "mul_assign_scalar", guarded(|| { let mut t = a.clone(); t *= s; un(t) }), ma.map(|x| x * s));
+                        check(&mut acc, "div_assign_scalar", guarded(|| { let mut t = a.clone(); t /= s; un(t) }), ma.map(|x| x / s));
+                    }
+                    // products: (R,C)*(C,R) -> (R,R) and tr_mul: (R,C)^T (R,C) -> (C,C)
+                    let (bt, mbt) = operand::<T, C, R>(&mut rng, c, r, rb);
+                    acc.observe(&format!("container|{}|matmul|{}", tag, reps), ra == 0 || rb == 0);
+                    let want = {
+                        let mut w = OMatrix::<T, R, R>::zeros_generic(r, r);
+                        for i in 0..r.value() {
+                            for j in 0..r.value() {
+                                let mut sacc = T::mk(0.0, 0.0);
+                                for k in 0..c.value() {
+                                    sacc = sacc + ma[(i, k)] * mbt[(k, j)];
+                                }
+                                w[(i, j)] = sacc;
+                            }
+                        }
+                        w
+                    };
+                    match guarded(|| (&a * &bt).unwrap_generic(r, r)) {
+                        Ok(g) if same(&g, &want) => {}
+                        Ok(g) => acc.violate(format!("container:matmul:{}:{}", sname, reps), format!("Derivative product on {} ({}) unwraps to {}, explicit matrices give {}", tag, reps, show(&g), show(&want)), json!({"shape": tag, "reps": reps, "a": show(&ma), "b": show(&mbt)})),
+                        Err(e) => acc.violate(format!("container:matmul:{}:panic", sname), format!("Derivative product on {} ({}) panicked: {}", tag, reps, e), json!({"shape": tag, "reps": reps})),
+                    }
+                    acc.observe(&format!("container|{}|tr_mul|{}", tag, reps), ra == 0 || rb == 0);
+                    let want = {
+                        let mut w = OMatrix::<T, C, C>::zeros_generic(c, c);
+                        for i in 0..c.value() {
+                            for j in 0..c.value() {
+                                let mut sacc = T::mk(0.0, 0.0);
+                                for k in 0..r.value() {
+                                    sacc = sacc + ma[(k, i)] * mb[(k, j)];
+                                }
+                                w[(i, j)] = sacc;
+                            }
+                        }
+                        w
+                    };
+                    match guarded(|| a.tr_mul(&b).unwrap_generic(c, c)) {
+                        Ok(g) if same(&g, &want) => {}
+                        Ok(g) => acc.violate(format!("container:tr_mul:{}:{}", sname, reps), format!("Derivative tr_mul on {} ({}) unwraps to {}, explicit matrices give {}", tag, reps, show(&g), show(&want)), json!({"shape": tag, "reps": reps, "a": show(&ma), "b": show(&mb)})),
+                        Err(e) => acc.violate(format!("container:tr_mul:{}:panic", sname), format!("Derivative tr_mul on {} ({}) panicked: {}", tag, reps, e), json!({"shape": tag, "reps": reps})),
+                    }
+                }
+            }
+            // unit seeds
+            let len = r.value() * c.value();
+            for i in 0..len {
+                acc.observe(&format!("container|{}|derivative_generic", tag), true);
+                match guarded(|| Derivative::<T, f64, R, C>::derivative_generic(r, c, i).unwrap_generic(r, c)) {
+                    Ok(m) => {
+                        let ok = m.iter().enumerate().all(|(k, e)| e.parts() == [if k == i { 1.0 } else { 0.0 }, 0.0]);
+                        if !ok {
+                            acc.violate(format!("container:derivative_generic:{}", sname), format!("derivative_generic({}) on {} gives {}", i, tag, show(&m)), json!({"shape": tag, "i": i}));
+                        }
+                    }
+                    Err(e) => acc.violate(format!("container:derivative_generic:{}:panic", sname), format!("derivative_generic({}) on {} panicked: {}", i, tag, e), json!({"shape": tag, "i": i})),
+                }
+            }
+        }
+        acc
+    }
+
+    /// the 1x1 conveniences `derivative()` and `unwrap()`
+    pub fn scalar_conveniences<T: El>(ctx: &Ctx) -> Acc {
+        use nalgebra::U1;
+        let mut acc = Acc::new();
+        let mut rng = Rng::stream(ctx.seed, 7799, 0);
+        for _ in 0..ctx.n(50, 5000) {
+            let v = T::mk(dy(&mut rng), dy(&mut rng));
+            acc.observe(&format!("container|1x1x{}|derivative()+unwrap()", T::NAME), true);
+            let d = Derivative::<T, f64, U1, U1>::derivative();
+            let one = d.clone().unwrap();
+            let none = Derivative::<T, f64, U1, U1>::none().unwrap();
+            let some = Derivative::<T, f64, U1, U1>::some(nalgebra::SVector::<T, 1>::from_element(v)).unwrap();
+            let scaled = (d * v).unwrap();
+            if one.parts() != [1.0, 0.0] || none.parts() != [0.0, 0.0] || some.parts() != v.parts() || scaled.parts() != v.parts() {
+                acc.violate(
+                    format!("container:scalar-conveniences:{}", T::NAME),
+                    format!("derivative().unwrap() = {:?}, none().unwrap() = {:?}, some(v).unwrap() = {:?}, (derivative()*v).unwrap() = {:?} for v = {:?}", one.parts(), none.parts(), some.parts(), scaled.parts(), v.parts()),
+                    json!({"v": format!("{:?}", v.parts())}),
+                );
+            }
+        }
+        acc
+    }
+}
+
 fn main() {
     let ctx = Ctx::from_args("C07");
     let acc = ctx.parallel(|shard, nshards| {
@@ -255,6 +461,33 @@ fn main() {
         go!(ndv_core::zoo::DDV2_64, "Dual<DualSVec64<2>>");
         go!(DualVec<DualSVec64<2>, f64, Const<2>>, "DualVec<DualSVec64<2>,2>");
         let _ = t;
+        // the container itself, all shapes incl. empty ones, float and dual elements
+        {
+            use nalgebra::{Const, Dyn};
+            let mut si = 0u64;
+            macro_rules! cont {
+                ($name:expr, $r:expr, $c:expr) => {
+                    si += 1;
+                    acc.merge(container::run::<f64, _, _>($name, $r, $c, &ctx, shard, nshards, si));
+                    acc.merge(container::run::<Dual64, _, _>($name, $r, $c, &ctx, shard, nshards, 100 + si));
+                };
+            }
+            cont!("1x1", Const::<1>, Const::<1>);
+            cont!("3x1", Const::<3>, Const::<1>);
+            cont!("1x3", Const::<1>, Const::<3>);
+            cont!("2x3", Const::<2>, Const::<3>);
+            cont!("0x1", Const::<0>, Const::<1>);
+            cont!("Dyn(4)x1", Dyn(4), Const::<1>);
+            cont!("Dyn(0)x1", Dyn(0), Const::<1>);
+            cont!("1xDyn(2)", Const::<1>, Dyn(2));
+            cont!("Dyn(3)xDyn(2)", Dyn(3), Dyn(2));
+            cont!("Dyn(2)xDyn(0)", Dyn(2), Dyn(0));
+            let _ = si;
+            if shard == 0 {
+                acc.merge(container::scalar_conveniences::<f64>(&ctx));
+                acc.merge(container::scalar_conveniences::<Dual64>(&ctx));
+            }
+        }
         acc
     });
     let types: std::collections::BTreeSet<String> = acc.classes.keys().filter_map(|k| k.split('|').nth(1).map(|s| s.to_string())).collect();
@@ -264,6 +497,7 @@ fn main() {
     let required = vec![
         ("at least 24 vector-valued types observed".to_string(), types.len() >= 24),
         ("assignment histories observed".to_string(), hist >= 20),
+        ("container operators observed in all nine representation pairs on at least eight shapes".to_string(), acc.classes.keys().filter(|k| k.starts_with("container|") && k.contains("|add(val,val)|")).count() >= 9 * 8),
     ];
     ctx.finish(
         acc,
